@@ -74,6 +74,16 @@ M = [
     ("b05", "C04", "benign", BI, "        a_tilde = std * noise\n        A += a_tilde", "        A = A + noise * std"),
     ("b06", "C12", "benign", IN, "y = (t1 - t) / (t1 - t0) * y0 + (t - t0) / (t1 - t0) * y1", "w = (t - t0) / (t1 - t0)\n    y = y0 + w * (y1 - y0) if 0 < w < 1 else (y0 if w <= 0 else y1)"),
     ("b07", "C14", "benign", IN, "y = (t1 - t) / (t1 - t0) * y0 + (t - t0) / (t1 - t0) * y1", "w = (t - t0) / (t1 - t0)\n    y = y0 + w * (y1 - y0) if 0 < w < 1 else (y0 if w <= 0 else y1)"),
+    ("b09", "C03", "benign", BI, "            out.append(\" \" * depth + f\"({elem._start}, {elem._end})\")", "            out.append(\"..\" * depth + f\"[{elem._start} ; {elem._end}]\")"),
+    ("b10", "C04", "benign", BI, "            out.append(\" \" * depth + f\"({elem._start}, {elem._end})\")", "            out.append(\"..\" * depth + f\"[{elem._start} ; {elem._end}]\")"),
+    ("b11", "C12", "benign", "torchsde/_core/methods/euler.py", "        I_k = self.bm(t0, t1)\n", "        I_k = self.bm(t0, t1)\n        I_k = self.bm(t0, t1)\n"),
+    ("b12", "C13", "benign", "torchsde/_core/methods/euler.py", "        I_k = self.bm(t0, t1)\n", "        I_k = self.bm(t0, t1)\n        I_k = self.bm(t0, t1)\n"),
+    ("b13", "C14", "benign", "torchsde/_core/methods/euler.py", "        I_k = self.bm(t0, t1)\n", "        I_k = self.bm(t0, t1)\n        I_k = self.bm(t0, t1)\n"),
+    ("b14", "C12", "benign", SD, "    ys, extra_solver_state = solver.integrate(y0, ts, extra_solver_state)\n\n    return parse_return", "    bm(ts[0], ts[0])  # shape probe\n    ys, extra_solver_state = solver.integrate(y0, ts, extra_solver_state)\n\n    return parse_return"),
+    ("b15", "C14", "benign", SD, "    ys, extra_solver_state = solver.integrate(y0, ts, extra_solver_state)\n\n    return parse_return", "    bm(ts[0], ts[0])  # shape probe\n    ys, extra_solver_state = solver.integrate(y0, ts, extra_solver_state)\n\n    return parse_return"),
+    ("b16", "C07", "benign", BI, "        piece_length = self._tree_dt * cache_size * 0.8", "        piece_length = self._tree_dt * cache_size * 0.5"),
+    ("b17", "C14", "benign", AS, "def update_step_size(error_estimate, prev_step_size, safety=0.9, facmin=0.2, facmax=1.4, prev_error_ratio=None):", "def update_step_size(error_estimate, prev_step_size, safety=0.85, facmin=0.2, facmax=2.0, prev_error_ratio=None):"),
+    ("b18", "C05", "benign", BI, "        piece_length = self._tree_dt * cache_size * 0.8", "        piece_length = self._tree_dt * cache_size * 0.5"),
     ("b08", "C13", "benign", IN, "y = (t1 - t) / (t1 - t0) * y0 + (t - t0) / (t1 - t0) * y1", "w = (t - t0) / (t1 - t0)\n    y = y0 + w * (y1 - y0) if 0 < w < 1 else (y0 if w <= 0 else y1)"),
 ]
 
